@@ -90,6 +90,7 @@ def gen_behaviour(r, profile, geom, bid, cfg, length=None, safe_first=False):
         "restart": {"append": 34, "batch": 8, "read": 12, "bread": 20, "reopen": 14, "mark": 5, "is_clean": 5},
         "marker":  {"append": 30, "mark": 30, "is_clean": 20, "reopen": 20},
         "drain":   {"append": 50, "batch": 10, "read": 10, "bread": 30},
+        "cap":     {"small": 55, "batch6": 15, "bread_big": 20, "read": 5, "bread": 5},
         "crashw":  {"append": 35, "batch": 25, "read": 15, "bread": 20, "fill": 5},
         "reclaim": {"fill": 45, "append": 5, "read": 12, "bread": 18, "peek": 8, "poll": 8, "reopen": 4},
     }[profile]
@@ -127,6 +128,19 @@ def gen_behaviour(r, profile, geom, bid, cfg, length=None, safe_first=False):
             for e in es:
                 m.note(t, e[1])
                 appended[t].append(e[1])
+        elif k == "small":
+            e = [ids.next(), r.choice([8, 9, 64, 100, 127, 128, 129])]
+            ops.append({"op": "append", "t": t, "id": e[0], "size": e[1]})
+            m.note(t, e[1])
+            appended[t].append(e[1])
+        elif k == "batch6":
+            es = [[ids.next(), r.choice([8, 64, 100, 128])] for _ in range(g["max_batch"] if geom == "tiny" else 50)]
+            ops.append({"op": "batch", "t": t, "es": es})
+            for e in es:
+                m.note(t, e[1])
+                appended[t].append(e[1])
+        elif k == "bread_big":
+            ops.append({"op": "bread", "t": t, "budget": r.choice([-1, -1, 5000, 100000]), "ckpt": r.random() < 0.8, "off": -1})
         elif k == "fill":
             # entries that take (almost) a whole block each, so files fill up quickly
             sz = r.choice([g["block"] - PREFIX, g["block"] - PREFIX - 1, g["block"] - PREFIX - 300, g["block"] // 2 + 10])
